@@ -277,19 +277,20 @@ def ev(node, env):
 
 
 def _iroot(n: int, q: int):
-    """Exact integer q-th root of n >= 0, or None."""
+    """Exact integer q-th root of n >= 0, or None (integer Newton iteration)."""
     if n < 0:
         return None
+    if n < 2:
+        return n
     if q == 2:
         r = math.isqrt(n)
     else:
-        r = round(n ** (1.0 / q)) if n.bit_length() < 900 else None
-        if r is None:
-            return None
-        while r ** q > n:
-            r -= 1
-        while (r + 1) ** q <= n:
-            r += 1
+        r = 1 << ((n.bit_length() + q - 1) // q)
+        while True:
+            nr = ((q - 1) * r + n // r ** (q - 1)) // q
+            if nr >= r:
+                break
+            r = nr
     return r if r ** q == n else None
 
 
